@@ -37,10 +37,23 @@ pub fn gen_name(r: &mut Rng) -> Vec<u8> {
 
 // ------------------------------------------------------------------------------------------ notes
 pub fn notes(r: &mut Rng, n: u64, x: &mut Exec, sink: &mut Sink) {
-    for _ in 0..n {
+    for it in 0..n {
         let class = *r.pick(&[32u64, 64]);
         let es = *r.pick(&ES_VALUES);
         let little = is_little(es);
+        // three per shard: a note laid out with an alignment of 1, 2 (+0 / +4) or 4 MiB - the descriptor then sits
+        // megabytes after the name, and the buffer really is that long
+        if (5..8).contains(&it) {
+            let align: u64 = [0x10_0000u64, 0x20_0004, 0x40_0000][(it - 5) as usize];
+            let mut buf: Vec<u8> = Vec::new();
+            put(&mut buf, 4, 4, little); put(&mut buf, 5, 4, little); put(&mut buf, r.below(8), 4, little);
+            buf.extend(b"ABC\0");
+            buf.resize(align as usize, 0);
+            buf.extend(&[1u8, 2, 3, 4, 5]);
+            if r.chance(1, 2) { buf.extend(&[0u8; 3]); }
+            sink.run(x, &json!({"op":"notes","class":class,"es":es,"align":w8(align),"buf":bytes_val(&buf)}));
+            continue;
+        }
         let align: u64 = match r.below(12) {
             0 => 1, 1 => 2, 2 | 3 | 4 => 4, 5 | 6 => 8, 7 => 16, 8 => *r.pick(&[3u64, 5, 6, 7, 12, 32]),
             9 => 0, 10 => *r.pick(&[0x8000_0000u64, 0xffff_ffff, 1 << 63, u64::MAX]), _ => 4,
